@@ -74,6 +74,9 @@ def castTo (ty : String) (v : PyVal) : Option PyVal :=
   | "tuple", .str s => some (.tuple (s.toList.map fun c => .str (String.singleton c)))
   | "set", .str s => some (.set ((s.toList.map fun c => PyVal.str (String.singleton c)).eraseDups))
   | "frozenset", .str s => some (.frozenset ((s.toList.map fun c => PyVal.str (String.singleton c)).eraseDups))
+  | "bytes", .bytes s => some (.bytes s)
+  | "bytes", .list [] | "bytes", .tuple [] | "bytes", .set [] | "bytes", .frozenset [] | "bytes", .dict [] => some (.bytes "")
+  | "bytes", .int 0 | "bytes", .bool false => some (.bytes "")            -- bytes(n) is n zero bytes
   | "dict", .str "" | "dict", .bytes "" => some (.dict [])
   | "list", .bytes "" => some (.list [])
   | "tuple", .bytes "" => some (.tuple [])
